@@ -93,8 +93,13 @@ impl PublicKey {
         salt: &str,
         signature: &Signature,
     ) -> Result<(), VerificationError> {
-        let pk =
-            fluence_keypair::PublicKey::decode(&self.0).map_err(VerificationError::InvalidKey)?;
+        let pk = decode_public_key(&self.0).map_err(VerificationError::InvalidKey)?;
+        if signature.0.is_empty() {
+            // fluence_keypair reads the type prefix without checking the length
+            return Err(VerificationError::InvalidSignature(
+                DecodingError::InvalidTypeByte,
+            ));
+        }
         let signature = fluence_keypair::Signature::decode(signature.0.to_vec())
             .map_err(VerificationError::InvalidSignature)?;
 
@@ -104,15 +109,23 @@ impl PublicKey {
 
     pub fn to_peer_id(&self) -> Result<String, KeyError> {
         // TODO cache the public key, or verify key format in Rkyv verification/deserialization
-        let pk = fluence_keypair::PublicKey::decode(&self.0)?;
+        let pk = decode_public_key(&self.0)?;
         Ok(pk.to_peer_id().to_string())
     }
 
     pub fn validate(&self) -> Result<(), KeyError> {
-        let pk = fluence_keypair::PublicKey::decode(&self.0)?;
+        let pk = decode_public_key(&self.0)?;
         let key_format = pk.get_key_format();
         validate_with_key_format((), key_format)
     }
+}
+
+fn decode_public_key(bytes: &[u8]) -> Result<fluence_keypair::PublicKey, DecodingError> {
+    if bytes.is_empty() {
+        // fluence_keypair reads the type prefix without checking the length
+        return Err(DecodingError::InvalidTypeByte);
+    }
+    fluence_keypair::PublicKey::decode(bytes)
 }
 
 impl ToString for PublicKey {
